@@ -74,8 +74,16 @@ func (p *Parser) parseWithStatement() (ast.Statement, error) {
 		stmt.With = withClause
 		return stmt, nil
 	case *ast.SetOperation:
-		// For set operations, attach WITH to the left statement if it's a SELECT
-		if leftSelect, ok := stmt.Left.(*ast.SelectStatement); ok {
+		// For set operations, attach WITH to the leftmost SELECT of the chain
+		var left ast.Statement = stmt
+		for {
+			op, ok := left.(*ast.SetOperation)
+			if !ok {
+				break
+			}
+			left = op.Left
+		}
+		if leftSelect, ok := left.(*ast.SelectStatement); ok {
 			leftSelect.With = withClause
 		}
 		return stmt, nil
